@@ -11,6 +11,7 @@ import (
 	"time"
 
 	"github.com/akrylysov/pogreb"
+	"verif.local/sim/sched"
 	"verif.local/sim/simrand"
 )
 
@@ -108,10 +109,12 @@ func (e *Env) Options() *pogreb.Options {
 	o := &pogreb.Options{FileSystem: e.FS}
 	if e.Cfg.SyncMode == 2 {
 		o.BackgroundSyncInterval = -1
-	} else if e.Cfg.BgSyncMs > 0 {
+	} else if e.Cfg.BgSyncMs > 0 && sched.Active() != nil {
 		o.BackgroundSyncInterval = time.Duration(e.Cfg.BgSyncMs) * time.Millisecond
 	}
-	if e.Cfg.BgCompactMs > 0 {
+	// the background worker is only started under the scheduler: outside a simulation it would be a
+	// real goroutine on real tickers that outlives the check of the image
+	if e.Cfg.BgCompactMs > 0 && sched.Active() != nil {
 		o.BackgroundCompactionInterval = time.Duration(e.Cfg.BgCompactMs) * time.Millisecond
 	}
 	pogreb.VerifSetLimits(o, e.Cfg.MaxSeg, e.Cfg.CompMinSeg, e.Cfg.CompFrag)
